@@ -531,6 +531,8 @@ class SimDevice:
         op, payload = data[0], bytes(data[1:])
         pol = self.block_policy
         hook = getattr(pol, "on_step", None)
+        if getattr(pol, "scripted", False):
+            return self._block_op_scripted(cmd, op, payload, advance, ops, H)
         if op == ops["init"]:
             if self.blk is not None:
                 self.blk["result"] = self.blk["result"] or "restarted"
@@ -613,6 +615,63 @@ class SimDevice:
         self.blk_log.append(b)
         self.blk = None
         return 0x6B87, b""
+
+    def _block_op_scripted(self, cmd, op, payload, advance, ops, H):
+        """Fully scripted device: records what arrives, answers with the next scripted action."""
+        pol = self.block_policy
+        if op == ops["init"]:
+            if self.blk is not None:
+                self.blk["result"] = self.blk["result"] or "restarted"
+                self.blk_log.append(self.blk)
+            self.blk = {"advance": advance, "init": payload, "count": int.from_bytes(payload, "big"),
+                        "blocks": [], "expect": "meta", "result": None, "cur": None}
+            return self._blk_scripted_answer(pol.next_action(self), cmd, ops, H)
+        b = self.blk
+        if b is None:
+            return 0x6B87, b""
+        stage = {v: k for k, v in ops.items()}.get(op)
+        if stage == "meta" and b["expect"] == "meta":
+            blk = {"meta": payload, "data": b"", "bro_count": None, "bros": [], "asked_bros": False}
+            b["blocks"].append(blk)
+            b["cur"] = ("block", blk)
+        elif stage == "chunk" and b["expect"] == "chunk":
+            b["cur"][1]["data"] += payload
+        elif stage == "bro_list" and b["expect"] == "bro_list":
+            blk = b["blocks"][-1]
+            blk["bro_list_raw"] = payload
+            blk["bro_count"] = payload[0] if len(payload) == 1 else -1
+        elif stage == "bro_meta" and b["expect"] == "bro_meta":
+            bro = {"meta": payload, "data": b""}
+            b["blocks"][-1]["bros"].append(bro)
+            b["cur"] = ("brother", bro)
+        elif stage == "bro_chunk" and b["expect"] == "bro_chunk":
+            b["cur"][1]["data"] += payload
+        else:
+            b["result"] = "sw:6b87"
+            self.blk_log.append(b)
+            self.blk = None
+            return 0x6B87, b""
+        return self._blk_scripted_answer(pol.next_action(self), cmd, ops, H)
+
+    def _blk_scripted_answer(self, a, cmd, ops, H):
+        b = self.blk
+        if a[0] == "hmeta":
+            b["expect"] = "meta"
+            return 0x9000, H + bytes([ops["meta"]])
+        if a[0] == "chunk":
+            kind = b["cur"][0] if b["cur"] else "block"
+            b["expect"] = "chunk" if kind == "block" else "bro_chunk"
+            return 0x9000, H + bytes([ops[b["expect"]], a[1]])
+        if a[0] == "bros":
+            b["blocks"][-1]["asked_bros"] = True
+            b["expect"] = "bro_list"
+            return 0x9000, H + bytes([ops["bro_list"]])
+        if a[0] == "bmeta":
+            b["expect"] = "bro_meta"
+            return 0x9000, H + bytes([ops["bro_meta"]])
+        if a[0] in ("partial", "total"):
+            return self._blk_finish("partial" if a[0] == "partial" else "success", H, ops)
+        return self._blk_answer(a, H, ops)
 
     def _blk_after_block(self, H, ops):
         b = self.blk
